@@ -235,8 +235,27 @@ def bounded_writes(ctx, py: PyRepo):
     ctx.analysed['serializer write sites'] = n
 
 
+def encoding_faithful(ctx, py: PyRepo):
+    """what is published is a pattern built through the interpreter: each construction call must be written with an opcode,
+    operands and meaning the checker reads back as the same pattern (shared with C02), and memory slots must be counted
+    alike on both sides so that a Load emitted by the memoiser addresses the term it meant (shared with C04)"""
+    from ..core import machine as M
+    from ..core.rustfacts import Rust
+    from . import c02, c04, c05
+    r = Rust.get()
+    w = Wiring(py)
+    arms = M.rust_arms(r)
+    py_ops = c02.py_opcodes(py)
+    dec = c05.decode_table(r)
+    for meth in ('evar', 'svar', 'symbol', 'metavar', 'implies', 'app', 'exists', 'mu', 'esubst', 'ssubst', 'instantiate_pattern',
+                 'save', 'load', 'publish_axiom', 'publish_claim'):
+        c02.method_row(ctx, w, meth, arms, py_ops, dec)
+    c04.memory_and_load(ctx, py, w, arms)
+
+
 def run(ctx):
     py = PyRepo.get()
+    encoding_faithful(ctx, py)
     who_may_publish(ctx, py)
     loop_shape(ctx, py)
     optimisers_transparent(ctx, py)
@@ -252,5 +271,7 @@ def run(ctx):
         'and publishes interpreter.pattern(<loop variable>); the declared lists are append-only; optimisers neither override nor alter '
         'publishing and the memoiser only loads/saves the very pattern it was asked for; the serializer has one symbol table created in '
         '__init__, growing only in symbol() with id len(table) under a not-in guard, shared by the three files through one serializer; '
-        'every byte is written through bytes([...]) without masking, so ids above 255 raise. The files are not decoded.')
+        'every byte is written through bytes([...]) without masking, so ids above 255 raise; each pattern-construction call is encoded '
+        'with the opcode, operands and meaning the checker reads back (shared with C02) and memory slots are counted alike on both sides '
+        '(shared with C04). The files are not decoded.')
     ctx.assumptions = ['python ast', 'MAY_PUBLISH table (confirmed by reading)']
